@@ -143,10 +143,12 @@ def oracle_cmp(a, b):
         return -1 if ca < cb else 1
     if sa == sb:
         return (ia > ib) - (ia < ib)
-    la, lb = sa.lower(), sb.lower()
-    if la != lb:
-        return -1 if la < lb else 1
-    return 0
+    # "alphabetically by symbol": plain string order of the symbols.  Every chemical symbol starts with a
+    # capital, for which this is the usual alphabetical order; the only lower-case symbol is the neutron 'n',
+    # which the formula grammar cannot name, and whose place the statement does not fix.
+    if not sa[0].isupper() or not sb[0].isupper():
+        return 0
+    return -1 if sa < sb else 1
 
 
 def order_cause(a, b):
@@ -165,7 +167,7 @@ def oracle_sorted(atoms):
     """one sequence in the order of the statement (ties by charge, only to have a definite string)"""
     def k(a):
         s, i, q = reading(a)
-        return (0 if s == "C" else 1 if s == "H" else 2, s.lower(), s, i, q)
+        return (0 if s == "C" else 1 if s == "H" else 2, s, i, q)
     return sorted(atoms, key=k)
 
 
